@@ -335,6 +335,22 @@ impl DnsCache {
         Some((record_vec.get(idx).unwrap(), updated))
     }
 
+    /// Forget the "instance -> subtype" mappings whose subtype PTR record is no
+    /// longer in the cache. Called after PTR records have been removed.
+    fn prune_subtypes(&mut self) {
+        let ptr = &self.ptr;
+        self.subtype.retain(|instance, subtype| {
+            ptr.get(subtype).is_some_and(|records| {
+                records.iter().any(|r| {
+                    r.record
+                        .any()
+                        .downcast_ref::<DnsPointer>()
+                        .is_some_and(|p| p.alias() == instance)
+                })
+            })
+        });
+    }
+
     /// Remove a record from the cache if exists, otherwise no-op
     pub(crate) fn remove(&mut self, record: &DnsRecordBox) -> bool {
         let mut found = false;
@@ -354,6 +370,9 @@ impl DnsCache {
                 }
                 false => true,
             });
+        }
+        if found && record.get_type() == RRType::PTR {
+            self.prune_subtypes();
         }
         found
     }
@@ -451,6 +470,10 @@ impl DnsCache {
             });
         }
 
+        if !expired_instances.is_empty() {
+            self.prune_subtypes();
+        }
+
         expired_instances
     }
 
@@ -508,6 +531,8 @@ impl DnsCache {
                 self.addr.remove(&host);
             }
         }
+
+        self.prune_subtypes();
     }
 
     /// Checks refresh due for PTR records of `ty_domain`.
@@ -851,6 +876,8 @@ impl DnsCache {
             records.retain(|r| r.src_intf != intf_id);
         });
         self.nsec.retain(|_, records| !records.is_empty());
+
+        self.prune_subtypes();
 
         IntfRemovalResult {
             removed_instances,
